@@ -157,14 +157,14 @@ def stalled_replicas(res, binary, quick):
                 {"op": "fan_state", "x": {"ms": 0}}]
         ops += [{"op": "fan_fail" if variant == "disconnects" else "fan_unstall", "x": {"r": victim}}]
         total = n_before + n_after
-        ops += [{"op": "fan_wait", "x": {"r": healthy[0], "n": total, "ms": 8000}},
-                {"op": "fan_send_many", "x": {"msg": total + 1, "n": 3, "ms": 3000}},
-                {"op": "fan_wait", "x": {"r": healthy[0], "n": total + 3, "ms": 5000}}]
+        ops += [{"op": "fan_wait", "x": {"r": healthy[0], "n": total, "ms": 25000}},
+                {"op": "fan_send_many", "x": {"msg": total + 1, "n": 3, "ms": 10000}},
+                {"op": "fan_wait", "x": {"r": healthy[0], "n": total + 3, "ms": 15000}}]
         if variant == "resumes":
-            ops += [{"op": "fan_wait", "x": {"r": victim, "n": total + 3, "ms": 5000}}]
+            ops += [{"op": "fan_wait", "x": {"r": victim, "n": total + 3, "ms": 15000}}]
         ops += [{"op": "fan_state", "x": {"ms": 0}}, {"op": "fan_stop"}]
         scenarios.append({"id": "stall-" + variant, "ops": ops})
-    obs = vlib.run_cases(binary, scenarios, timeout=240, tag="c26stall")
+    obs = vlib.run_cases(binary, scenarios, timeout=400, tag="c26stall")
     for sc in scenarios:
         variant = sc["id"].split("-")[1]
         o = obs.get(json.dumps(sc["id"]))
